@@ -297,6 +297,12 @@ func genCLICase(c *core.Ctx, legacy bool) (string, []cliFile) {
 				`[{"op":"add","path":"/first","value":1},{"op":"copy","from":"/","path":"/snapshot"}]`,
 				`[{"op":"move","from":"/","path":"/mv"}]`,
 			}[c.R.Intn(8)]})
+		case k == 10:
+			// a well-formed patch followed by something: closing brackets nobody opened, a second value, a stray
+			// comma - the file as a whole is not a JSON text
+			base := []string{`[]`, `[{"op":"add","path":"/zz","value":1}]`, `[{"op":"test","path":"","value":` + doc + `}]`}[c.R.Intn(3)]
+			junk := []string{"]", "}", "]]", "} x", " ]garbage", ",", "[]", " {}", "\n1", "\n]\n", "}{", "\x00"}[c.R.Intn(12)]
+			files = append(files, cliFile{"malformed", base + junk})
 		case k == 7:
 			// a patch without operations: still validates and re-encodes the document
 			files = append(files, cliFile{"valid", []string{"[]", "[ ]", " []\n", "[\n]"}[c.R.Intn(4)]})
